@@ -8,9 +8,9 @@ from bcheck.common import pmap, result, merge, time_limit, CaseTimeout
 ALIGN = 'src/alignment/aligner.py::Aligner.align'
 
 
-def run_aligner_case(case):
+def align_case(case):
+    """the real Aligner.align on one generated case -> (row, reference map, query map); the conflict monitor records what the resolver did"""
     from bcheck import conflict_monitor as cm
-    from bcheck import records as R
     from src.alignment.aligner import Aligner, AlignerEngine
     from src.alignment.alignment_position_scorer import AlignmentPositionScorer
     from src.alignment.segments_factory import AlignmentSegmentsFactory
@@ -29,6 +29,14 @@ def run_aligner_case(case):
     aligner = Aligner(AlignmentPositionScorer(1000, 1., -250), AlignmentSegmentsFactory(1000, 1200), AlignerEngine(case['maxDistance']),
                       AlignmentSegmentConflictResolver(SegmentChainer(SequentialityScorer(1., 0))))
     row = aligner.align(ref, query, [Peak(pk, 10. + i) for i, pk in enumerate(case['peaks'])], case['reverse'])
+    return row, ref, query
+
+
+def run_aligner_case(case):
+    from bcheck import conflict_monitor as cm
+    from bcheck import records as R
+    row, ref, query = align_case(case)
+    qpos = query.positions
     pairs = [(p.reference.siteId, p.query.siteId) for p in row.alignedPairs]
     if not pairs:
         return [], 0, pairs
@@ -107,4 +115,4 @@ def replay(repo, rp):
 
 MODES = ['best', 'separate', 'joined', 'all']
 MODESQ = ['best', 'all', 'joined', 'best']
-PARAMS = [{}, {'d': 1000}, {'p': 5}, {'d': 2000, 'ms': 500}]
+PARAMS = [{}, {'d': 1000}, {'p': 5}, {'d': 2000, 'ms': 500}, {'ss': 1, 'sj': 0.01}, {'ss': 1, 'sj': 0.1, 'p': 5}]
